@@ -185,7 +185,7 @@ P('C14', claimed=True, level='exploration', drivers=['vf.drivers.C14'],
   level_note='Event code is dynamic dictionary dispatch: bounded only. Modifier-only events are left unspecified.')
 
 P('C15', claimed=True, level='other',
-  contracts=['base_builtins', 'synth_specialindex'], drivers=['vf.drivers.C15'],
+  contracts=['base_builtins', 'base_builtins_wrappers', 'synth_specialindex'], drivers=['vf.drivers.C15'],
   level_text=('Numeric range/inverse laws of mod, div, wrap, fold, clip, round, roundup, trunc and the '
               'midi/cps, ratio/midi, oct/cps, amp/db pairs are postconditions on the real kernels and are '
               'discharged for all int/float arguments (one case per type assignment; floats as reals); the '
